@@ -199,7 +199,9 @@ def mpi_case(c):
 
     def work(comm):
         warnings.simplefilter('ignore')
-        S = simdriver.Sim(comm, npts, nprocs)
+        # every other case runs with constants in which ion / electron / density profile constants all differ
+        ex = dict(simdriver.DISTINCT_CONSTANTS) if (npts[0] + npts[3]) % 2 else None
+        S = simdriver.Sim(comm, npts, nprocs, extra=ex)
         f, rho = S.f, S.rho
         tl.S = S
         tl.f = f
@@ -231,7 +233,7 @@ def mpi_case(c):
             g2 = (nprocs[1], nprocs[0])
             if g2 != tuple(nprocs) and g2[0] <= min(npts[0], npts[3], npts[1]) and g2[1] <= min(npts[2], npts[3]):
                 comm.Barrier()
-                S2 = simdriver.Sim(comm, npts, g2)
+                S2 = simdriver.Sim(comm, npts, g2, extra=ex)
                 comm.Barrier()
                 f2, rho2 = S2.f, S2.rho
                 f2.setLayout('v_parallel')
@@ -431,7 +433,7 @@ def run():
         mode, npts, g, seed = c
         key = 'poisson_solver.DensityFinder.getPerturbedRho'
         chk.count((mode, tuple(npts), g), nontrivial=(g != (1, 1)), stratum='mpi-%s:%s' % (mode, 'serial' if g == (1, 1) else ('r-split' if g[0] > 1 else 'z-split-only')),
-                  sample={'mode': mode, 'npts': npts, 'process_grid': list(g)})
+                  sample={'mode': mode, 'npts': npts, 'process_grid': list(g), 'constants': 'siblings-distinct' if (npts[0] + npts[3]) % 2 else 'defaults'})
         if r[0] != 'ok':
             chk.violation('%s:run-%s' % (key, r[1] if len(r) > 1 else r[0]), '%s npts=%r grid=%r: run ends in %r' % (mode, npts, g, r[1:3]),
                           {'kind': 'impl', 'case': [mode, npts, list(g), seed], 'outcome': list(r[1:3])})
